@@ -510,6 +510,23 @@ class TTFInterpolatablePreProcessor(BaseInterpolatablePreProcessor):
 
             self._run(FlattenComponentsIFilter(include=lambda g: len(g.components)))
 
+            # flattening composes nested 2x2 matrices and may push them beyond what
+            # F2Dot14 can hold; like in check_for_nonmatching_components, decompose
+            # those glyphs now rather than leave it to TTGlyphPen, which would resolve
+            # a sparse master's components in that master's own (placeholder) glyphs
+            overflowing = {
+                gname
+                for glyphSet in self.glyphSets
+                for gname, glyph in glyphSet.items()
+                if any(
+                    s > 2 or s < -2
+                    for component in glyph.components
+                    for s in component.transformation[0:4]
+                )
+            }
+            if overflowing:
+                self._run(DecomposeComponentsIFilter(include=overflowing))
+
         # finally apply all custom post-filters
         for funcs in itertools.zip_longest(*self.postFilters):
             self._run(*funcs)
